@@ -1,6 +1,7 @@
 package main
 
 import (
+	"crypto/tls"
 	"fmt"
 	"io"
 	"net"
@@ -52,6 +53,14 @@ func c15Run(c *ctx) {
 	}
 	for _, v := range []string{"prometheus", "prometheus,prometheus", "stdout,stdout", "prometheus, stdout ,prometheus", "stdout,prometheus", "flat,flat"} {
 		cases = append(cases, rc{"metrics.target=" + v, []string{"-metrics.target", v}})
+	}
+	// listener kinds that terminate TLS, given without a certificate source (the loader's business to refuse them)
+	for _, v := range []string{";proto=https+tcp+sni", ";proto=https", ";proto=grpcs", ";proto=tcp+sni", ";proto=tcp;cs=nosuch"} {
+		cases = append(cases, rc{"extra-listener=" + v, nil})
+	}
+	// the custom back end polls a URL put together from four options
+	for _, v := range [][]string{{"-registry.custom.host", "bad host:1"}, {"-registry.custom.scheme", ""}, {"-registry.custom.path", "%zz"}, {"-registry.custom.host", "127.0.0.1:1", "-registry.custom.queryparams", "a=%zz b"}} {
+		cases = append(cases, rc{"registry.backend=custom " + strings.Join(v, " "), append([]string{"-registry.backend", "custom", "-registry.custom.pollinterval", "200ms", "-registry.custom.timeout", "1s"}, v...)})
 	}
 	fixed := len(cases)
 	r := c.rng(15)
@@ -139,7 +148,12 @@ func c15RunOne(c *ctx, i int, name string, args []string, upPort int) {
 	})
 	a.PutKV("fabio/config/manual", "route add man man.test/ http://127.0.0.1:9/")
 	httpA, promA, uiA := fmt.Sprintf("127.0.0.1:%d", freePort()), fmt.Sprintf("127.0.0.1:%d", freePort()), fmt.Sprintf("127.0.0.1:%d", freePort())
-	full := append([]string{"-registry.backend", "consul", "-registry.consul.addr", a.Addr(), "-registry.consul.register.enabled=false", "-proxy.addr", httpA + "," + promA + ";proto=prometheus", "-ui.addr", uiA}, args...)
+	listen, extraA := httpA+","+promA+";proto=prometheus", ""
+	if strings.HasPrefix(name, "extra-listener=") {
+		extraA = fmt.Sprintf("127.0.0.1:%d", freePort())
+		listen += "," + extraA + strings.TrimPrefix(name, "extra-listener=")
+	}
+	full := append([]string{"-registry.backend", "consul", "-registry.consul.addr", a.Addr(), "-registry.consul.register.enabled=false", "-proxy.addr", listen, "-ui.addr", uiA}, args...)
 	logPath := filepath.Join(c.Dir, fmt.Sprintf("fabio-c15run-%d.log", i))
 	p, err := fabioproc.Start(c.Fabio, logPath, full, nil)
 	if err != nil {
@@ -170,6 +184,18 @@ func c15RunOne(c *ctx, i int, name string, args []string, upPort int) {
 			time.Sleep(150 * time.Millisecond)
 			get("http://"+httpA+"/x", "s1.test")
 			get("http://"+httpA+"/x", "nobody.test")
+		}
+		if extraA != "" && fabioproc.WaitListening(extraA, 3*time.Second) {
+			// a TLS client and a plain one knock at the extra listener
+			if tc, err := tls.DialWithDialer(&net.Dialer{Timeout: 3 * time.Second}, "tcp", extraA, &tls.Config{InsecureSkipVerify: true, ServerName: "s1.test"}); err == nil {
+				tc.Close()
+			}
+			if pc, err := net.DialTimeout("tcp", extraA, 3*time.Second); err == nil {
+				pc.Write([]byte("GET / HTTP/1.0\r\n\r\n"))
+				pc.SetReadDeadline(time.Now().Add(time.Second))
+				io.ReadAll(pc)
+				pc.Close()
+			}
 		}
 		get("http://"+promA+"/", "")
 		get("http://"+promA+"/metrics", "")
